@@ -75,6 +75,8 @@ pub enum FileKind {
     File(String),
     Dir,
     Symlink(String),
+    /// a named pipe (nobody ever writes to it)
+    Fifo,
 }
 
 #[derive(Serialize, Deserialize, Clone, Debug, PartialEq)]
@@ -361,6 +363,14 @@ pub fn materialize(sc: &Scenario, root: &Path) -> std::io::Result<Case> {
             }
             FileKind::Symlink(t) => {
                 let _ = std::os::unix::fs::symlink(t, &p);
+            }
+            FileKind::Fifo => {
+                use std::os::unix::ffi::OsStrExt;
+                if let Ok(c) = std::ffi::CString::new(p.as_os_str().as_bytes()) {
+                    unsafe {
+                        libc::mkfifo(c.as_ptr(), 0o644);
+                    }
+                }
             }
         }
     }
